@@ -107,6 +107,18 @@ static int grid(int argc, char **argv) {
       std::vector<std::pair<u32, u32>> wr;
       if (mem[iw] != w0) wr.push_back({iw, mem[iw]});
       if (s.mm && s.addr != iw && mem[s.addr] != d0) wr.push_back({s.addr, mem[s.addr]});
+      // whole-memory audit after every step: every other word is zero by construction, so a word that is not is a store
+      // the instruction made somewhere else; it is reported as a write (and cleared) for the specification to judge
+      {
+        const uint64_t *m64 = reinterpret_cast<const uint64_t *>(mem);
+        uint64_t acc = 0;
+        for (u32 i = 0; i < MEMW / 2; i++) acc |= m64[i];
+        uint64_t expect = (uint64_t)mem[iw] | (s.mm ? (uint64_t)mem[s.addr] : 0);
+        if ((acc | expect) != expect || acc != 0) {
+          for (u32 i = 0; i < MEMW && wr.size() < 6; i++)
+            if (mem[i] != 0 && i != iw && !(s.mm && i == s.addr)) { wr.push_back({i, mem[i]}); mem[i] = 0; }
+        }
+      }
       fprintf(out, "{\"i\":%d,\"pre\":[%d,%d,%d,%d],\"m\":", ins, (int)pc, (int)a, (int)b, (int)o);
       jarr(out, pre);
       fprintf(out, ",\"in\":[],\"x\":1,\"post\":[%d,%d,%d,%d],\"w\":", (int)g.pc, (int)g.areg, (int)g.breg, (int)g.oreg);
